@@ -127,6 +127,7 @@ Proof.
   intros [H|H]; [injection H as _ <-; reflexivity|].
   destruct (tomb_active s); [|destruct H].
   destruct (prev_entry s done e) as [[pt pe]|]; [|destruct H].
+  destruct (kv_deleted (e_md pe)); [destruct H|].
   destruct (bytes_eqb _ _); [destruct H|]. destruct H as [H|[]]. injection H as _ <-; reflexivity.
 Qed.
 Lemma tx_kvs_tx s done t k v : In (k, v) (tx_kvs s done t) -> v_tx v = t_id t.
